@@ -4,7 +4,7 @@ from __future__ import annotations
 import ast
 
 from ..core.cfg import CFG
-from ..core.repo import (AnalysisError, Repo, call_name, calls_in, definitions, dotted, is_const,
+from ..core.repo import (AnalysisError, Repo, call_name, calls_in, definitions, dotted, func_params, is_const,
                          kwarg, names_in, parent, unparse, walk_no_nested_defs)
 from ..domains.codec import SER, ReaderModel, WriterModel, attrs_store_key
 from .c01 import _rule_reserved_keys
@@ -164,14 +164,22 @@ def run(check, repo: Repo) -> None:
                      fail_detail=f"nested load `{unparse(c)}` does not forward both skip lists: names are not "
                                  f"skipped below the first level")
     # final sweep
-    sweep = False
+    sweep = None
     for lp in loops:
         if dotted(lp.iter) == "skip_names":
             fake = ast.Module(body=lp.body, type_ignores=[])
             if any(call_name(c) == "delattr" for c in calls_in(fake)):
-                sweep = True
-    check.decide(sweep, "C14-R3", "_recursive_load: final delattr sweep over skip_names", "", mod.line(lf),
+                sweep = lp
+    check.decide(sweep is not None, "C14-R3", "_recursive_load: final delattr sweep over skip_names", "", mod.line(lf),
                  fail_detail="attributes named in skip that were set by other means are not removed")
+    if sweep is not None:
+        # "final": no restoration loop can run after the sweep — torch modules restore registered parameters / buffers / sub-modules
+        # wholesale through the unfiltered _parameters/_buffers/_modules dicts, and only a sweep that comes afterwards removes them
+        sn = min(lcfg.nodes_of(sweep))
+        after = [unparse(lp.iter) for lp, _ in restore_loops if min(lcfg.nodes_of(lp)) in lcfg.reachable_from(sn)]
+        check.decide(not after, "C14-R3", "_recursive_load: the delattr sweep runs after every restoration loop", "", mod.line(sweep),
+                     fail_detail=f"restoration loop(s) over {after} run after the sweep: names restored indirectly (registered parameters, buffers and sub-modules of an "
+                                 f"nn.Module/AutoSerialize hybrid come back through `_parameters`/`_buffers`/`_modules`) survive although they are skipped")
 
     # ---- R4: persisted keys written = keys read; load passes the union ----------------------
     _, save_fn = repo.func(f"{SER}:AutoSerialize.save")
